@@ -737,7 +737,8 @@ def stress_real_threads(ctx):
     import sys
     import threading
     imps = rawgraph.importers()
-    K = ctx.pick(250, 2000)
+    K = ctx.pick(250, 600)
+    import time as _time
     old = sys.getswitchinterval()
     for store, same in (('shared', False), ('shared', True), ('disjoint', False), ('disjoint', True)):
         imp, cls = imps[store]
@@ -745,13 +746,21 @@ def stress_real_threads(ctx):
         errors = []
         gid = (lambda t: 'S') if same else (lambda t: f'S{t}')
 
+        done = {}
+        deadline = _time.monotonic() + 60
+
         def body(t):
             g = cls(graph_id=gid(t), importer=type(imp)())
+            n = 0
             for i in range(K):
+                if _time.monotonic() > deadline:
+                    break           # a loaded machine: what was done so far is judged, nothing keeps running behind the next phase
                 try:
                     g.add_node(node_id=f's{t}-{i}', label='NetworkNode', props={'Name': f's{t}-{i}'})
                 except Exception as e:
                     errors.append((t, i, type(e).__name__, str(e)[:80]))
+                n = i + 1
+            done[t] = n
         ths = [threading.Thread(target=body, args=(t,), daemon=True) for t in range(3)]
         sys.setswitchinterval(1e-6)
         try:
@@ -765,7 +774,7 @@ def stress_real_threads(ctx):
             ctx.mark_inconclusive('real-thread stress did not finish within the watchdog')
             return
         ctx.count('stress:runs')
-        ctx.count('stress:create-node-calls', 3 * K)
+        ctx.count('stress:create-node-calls', sum(done.values()))
         ctx.seen(['stress', store, same], True)
         w = {'mode': 'real-threads', 'store': store, 'one_graph_for_all': same, 'threads': 3, 'calls_per_thread': K}
         if errors:
@@ -775,7 +784,7 @@ def stress_real_threads(ctx):
             continue
         snap = canon.store_snapshot(imp)[0]
         for t in range(3):
-            want = {f's{t}-{i}' for i in range(K)}
+            want = {f's{t}-{i}' for i in range(done.get(t, 0))}
             have = set(snap.get(gid(t), {'nodes': {}})['nodes'])
             if not want <= have:
                 ctx.violation(f'C20/{store}-lost-node-under-real-threads', 'several threads create nodes concurrently: no node is lost',
@@ -791,19 +800,27 @@ def stress_real_threads(ctx):
         errors, clones = [], []
         stop = threading.Event()
 
+        added = {}
+        deadline = _time.monotonic() + 60
+
         def adder(t):
             g = cls(graph_id='S', importer=type(imp)())
+            n = 0
             for i in range(K // 2):
+                if _time.monotonic() > deadline:
+                    break
                 try:
                     g.add_node(node_id=f'a{t}-{i}', label='NetworkNode')
                 except Exception as e:
                     errors.append(('add_node', t, i, type(e).__name__, str(e)[:80]))
+                n = i + 1
+            added[t] = n
             stop.set()
 
         def cloner():
             g = cls(graph_id='S', importer=type(imp)())
             k = 0
-            while not stop.is_set() and k < 400:
+            while not stop.is_set() and k < 400 and _time.monotonic() < deadline:
                 k += 1
                 try:
                     g.clone_graph(new_graph_id=f'copy-{k}')
@@ -830,7 +847,7 @@ def stress_real_threads(ctx):
                           '(copy) graphs and create nodes concurrently: no call fails', dict(w, failed_calls=len(errors), first=errors[:3]))
             continue
         have = set((canon.graph_snapshot(imp, 'S') or {'nodes': {}})['nodes'])
-        want = {f'base-{i}' for i in range(300)} | {f'a{t}-{i}' for t in range(2) for i in range(K // 2)}
+        want = {f'base-{i}' for i in range(300)} | {f'a{t}-{i}' for t in range(2) for i in range(added.get(t, 0))}
         if have != want:
             ctx.violation(f'C20/{store}-lost-node-under-real-threads', 'no node is lost', dict(w, missing=sorted(want - have)[:5]))
     for imp, _ in imps.values():
